@@ -243,7 +243,9 @@ def run_real(scn, h, cis, rng=None):
             drv.callin('call', worker.id, x)
             if (worker.id, x) in refuse:
                 drv.refusers.add(worker.id)
-                return False
+                drv.nrefused = getattr(drv, 'nrefused', 0) + 1
+                # pool.py tests `not enqueue_fn(...)`: every falsy answer is a refusal (a function that falls off its end refuses)
+                return (False, None, 0)[(drv.nrefused + x) % 3]
             worker._enqueue(x, tag)
             return True
 
